@@ -602,7 +602,8 @@ class ExprMixin:
         if isinstance(op, ast.IsNot):
             return z3.Not(self.identical(a, b))
         if isinstance(op, (ast.In, ast.NotIn)):
-            if self.is_opaque(a) and isinstance(b.t, (T._Str, T.Seq)) and getattr(self.eng.prop, 'hook_in', None) is None:
+            if self.is_opaque(a) and isinstance(b.t, (T._Str, T.Seq)) and getattr(self.eng.prop, 'hook_in', None) is None \
+                    and not (isinstance(b.t, T._Str) and getattr(self.eng.prop, 'token_in_str', False)):
                 return z3.Bool(fresh_name('opq_in'))       # membership of an arbitrary object: unconstrained
             r = self.contains(b, a, st)
             return r if isinstance(op, ast.In) else z3.Not(r)
@@ -713,6 +714,10 @@ class ExprMixin:
             return self.str_contains(c.z, x.z, st)
         if isinstance(t, T.Tuple):
             return zor([self.eq(x, e, st) for e in self.tuple_items(c)])
+        if isinstance(t, T._Str) and isinstance(x.t, T.Ref) and getattr(self.eng.prop, 'token_in_str', False) and self.declares_field(x.t.cls, 'text'):
+            # a Token is a str subclass: `token in "0123..."` is the substring test on its characters (the field `text`)
+            self.nonnull(x, st, 'in')
+            return self.str_contains(c.z, self.getattr(x, 'text', st).z, st)
         if isinstance(t, T.Ref) and t.cls != '$any' and not self.spec:
             for mname in ('__contains__',):
                 m = self.eng.find_method(t.cls, mname)
@@ -971,6 +976,8 @@ class ExprMixin:
         hint = getattr(n, '_elem_hint', None)
         if not vs and hint is None and '[]' in self.c.locals:
             hint = self.eng.ptype(self.c.locals['[]']).elem
+        if vs and hint is None and all(is_none(v) for v in vs) and '[None]' in self.c.locals:
+            hint = self.eng.ptype(self.c.locals['[None]']).elem
         if not vs and hint is None:
             raise Unsupported('empty list literal needs a type hint (contract.locals) at line %s' % n.lineno)
         et = hint
